@@ -376,6 +376,23 @@ def case_ty_fragment(i, cid):
     return RCase("C05", code, "ty_fragment/%s%s" % ("whole" if whole else "under_ref", "/async" if asy else ""))
 
 
+def case_mod_block_fragment(i, cid):
+    """C08 / C02 (F30): in a macro_rules-written entraited module or impl block a function whose body is a `$b:block` fragment is
+    followed by further functions: each of them is a method, and each call reaches its function"""
+    if i % 2 == 0:
+        code = ("pub mod k%d { use super::*;\nmacro_rules! mk { ($b:block, $c:block) => { #[entrait(pub Tr)] pub mod m { use super::*; "
+                "pub fn g(deps: &impl A, x: i64) -> i64 $b pub fn h(deps: &impl A, x: i64) -> i64 { x + 1 } fn private(x: i64) -> i64 $c pub fn l(deps: &impl A, x: i64) -> i64 $c } } }\n"
+                "mk!({ 40 }, { 8 });\n"
+                "pub fn run() { let app = Impl::new(App { tag: 7 }); let r = (m::g(&app, 1), app.g(1), m::h(&app, 1), app.h(1), m::l(&app, 4), app.l(4)); "
+                "report(%d, \"C08\", r == (40, 40, 2, 2, 8, 8), format!(\"{:?}\", r)); }\n}") % (cid, cid)
+        return RCase("C08", code, "mod_block_fragment/mod")
+    code = ("pub mod k%d { use super::*;\n#[entrait(TvImpl, delegate_by = DelegateTv)]\npub trait Tv { fn g(&self, x: i64) -> i64; fn h(&self, x: i64) -> i64; }\npub struct X;\n"
+            "macro_rules! mk { ($b:block) => { #[entrait]\nimpl TvImpl for X { pub fn g<D>(deps: &D, x: i64) -> i64 $b pub fn h<D>(deps: &D, x: i64) -> i64 { x + 1 } } } }\n"
+            "mk!({ 40 });\npub struct Ap; impl DelegateTv<Ap> for Ap { type Target = X; }\n"
+            "pub fn run() { let app = Impl::new(Ap); let r = (app.g(1), app.h(1)); report(%d, \"C08\", r == (40, 2), format!(\"{:?}\", r)); }\n}") % (cid, cid)
+    return RCase("C08", code, "mod_block_fragment/impl")
+
+
 def build_cases(seed, tier):
     rng = random.Random(seed * 211 + 3)
     k = 5 if tier == "thorough" else 1
@@ -400,6 +417,8 @@ def build_cases(seed, tier):
         cases.append(case_mod_fragment(i, len(cases)))
     for i in range(4):
         cases.append(case_ty_fragment(i, len(cases)))
+    for i in range(2):
+        cases.append(case_mod_block_fragment(i, len(cases)))
     for i, c in enumerate(cases):
         c.cid = i
     return cases
